@@ -26,12 +26,19 @@ enum Res {
 
 /// apply `f` to the table-like at `path` (path may go through array-of-tables / array elements)
 fn with_table_like(item: &mut Item, path: &[J], f: &mut dyn FnMut(&mut dyn toml_edit::TableLike, bool) -> Res) -> Res {
-    if path.is_empty() {
+    with_item(item, path, &mut |item| {
         let is_std = item.is_table();
-        return match item.as_table_like_mut() {
+        match item.as_table_like_mut() {
             Some(t) => f(t, is_std),
             None => Res::Skip,
-        };
+        }
+    })
+}
+
+/// apply `f` to the item at `path`
+fn with_item(item: &mut Item, path: &[J], f: &mut dyn FnMut(&mut Item) -> Res) -> Res {
+    if path.is_empty() {
+        return f(item);
     }
     match is_idx(&path[0]) {
         Some(i) => match item {
@@ -39,7 +46,7 @@ fn with_table_like(item: &mut Item, path: &[J], f: &mut dyn FnMut(&mut dyn toml_
                 Some(t) => {
                     // continue inside the element
                     let mut tmp = Item::Table(std::mem::take(t));
-                    let r = with_table_like(&mut tmp, &path[1..], f);
+                    let r = with_item(&mut tmp, &path[1..], f);
                     if let Item::Table(tt) = tmp {
                         *t = tt;
                     }
@@ -50,7 +57,7 @@ fn with_table_like(item: &mut Item, path: &[J], f: &mut dyn FnMut(&mut dyn toml_
             Item::Value(Value::Array(a)) => match a.get_mut(i) {
                 Some(v) => {
                     let mut tmp = Item::Value(std::mem::replace(v, Value::from(0)));
-                    let r = with_table_like(&mut tmp, &path[1..], f);
+                    let r = with_item(&mut tmp, &path[1..], f);
                     if let Item::Value(vv) = tmp {
                         *v = vv;
                     }
@@ -61,7 +68,7 @@ fn with_table_like(item: &mut Item, path: &[J], f: &mut dyn FnMut(&mut dyn toml_
             _ => Res::Skip,
         },
         None => match item.get_mut(from_cps(&path[0]).as_str()) {
-            Some(next) => with_table_like(next, &path[1..], f),
+            Some(next) => with_item(next, &path[1..], f),
             None => Res::Skip,
         },
     }
@@ -77,6 +84,43 @@ fn apply(doc: &mut DocumentMut, o: &J) -> Res {
     let key = from_cps(&o["key"]);
     let i = o["i"].as_u64().unwrap_or(0) as usize;
     let v = o["v"].clone();
+    // the retain family needs the concrete container types
+    if op == "retain_not" {
+        return with_item(doc.as_item_mut(), &path, &mut |it| match it {
+            Item::Table(t) => {
+                t.retain(|k, _| k != key);
+                Res::Ok
+            }
+            Item::Value(Value::InlineTable(t)) => {
+                t.retain(|k, _| k != key);
+                Res::Ok
+            }
+            _ => Res::Skip,
+        });
+    }
+    if op == "array_retain_not" || op == "aot_retain_not" {
+        return with_table_like(doc.as_item_mut(), &path, &mut |t, _| {
+            let Some(it) = t.get_mut(&key) else { return Res::Skip };
+            let mut n = 0usize;
+            match it {
+                Item::Value(Value::Array(a)) if op == "array_retain_not" => {
+                    a.retain(|_| {
+                        n += 1;
+                        n - 1 != i
+                    });
+                    Res::Ok
+                }
+                Item::ArrayOfTables(a) if op == "aot_retain_not" => {
+                    a.retain(|_| {
+                        n += 1;
+                        n - 1 != i
+                    });
+                    Res::Ok
+                }
+                _ => Res::Skip,
+            }
+        });
+    }
     with_table_like(doc.as_item_mut(), &path, &mut |t, is_std| match op.as_str() {
         "insert" => {
             if v["k"] == "t" {
@@ -235,6 +279,7 @@ fn candidate_ops(item: &Item, path: &mut Vec<J>, out: &mut Vec<J>) {
             }
             out.push(op("insert", path, kc.clone(), &leaf, 0));
             out.push(op("remove", path, kc.clone(), &leaf, 0));
+            out.push(op("retain_not", path, kc.clone(), &leaf, 0));
             if v.is_table() {
                 out.push(op("to_inline", path, kc.clone(), &leaf, 0));
             }
@@ -250,6 +295,7 @@ fn candidate_ops(item: &Item, path: &mut Vec<J>, out: &mut Vec<J>) {
                 for i in 0..a.len().min(3) {
                     out.push(op("array_replace", path, kc.clone(), &leaf, i));
                     out.push(op("array_remove", path, kc.clone(), &leaf, i));
+                    out.push(op("array_retain_not", path, kc.clone(), &leaf, i));
                 }
             }
             if let Some(a) = v.as_array_of_tables() {
@@ -262,6 +308,7 @@ fn candidate_ops(item: &Item, path: &mut Vec<J>, out: &mut Vec<J>) {
                 if a.len() >= 2 {
                     for i in 0..a.len().min(3) {
                         out.push(op("aot_remove", path, kc.clone(), &leaf, i));
+                        out.push(op("aot_retain_not", path, kc.clone(), &leaf, i));
                     }
                 }
             }
